@@ -44,7 +44,14 @@ def replay(prop, path):
     data = json.load(open(path))
     case = data["case"] if isinstance(data, dict) and "case" in data else data
     try:
-        res = core.run_case(prop, case)
+        # a fixed case (bundled example) gets the same generous budget as in the tiers
+        fixed = any(core.canonical_json(case) == core.canonical_json(c)
+                    for c in prop.fixed_cases("thorough"))
+        if fixed:
+            res = core.run_case(prop, case, limit=getattr(prop, "FIXED_TIMEOUT_S", 900),
+                                timeout_is_violation=False)
+        else:
+            res = core.run_case(prop, case)
     except Exception:
         print("HARNESS-ERROR property=%s replay raised:\n%s" % (prop.ID, traceback.format_exc()))
         return 2
